@@ -103,6 +103,7 @@ structure Drain where
   snapshot : List Nat
   deadline : Nat
   phase    : Nat := 0                 -- 0 = waiting (after drain.started), 1 = at drain.deadline, 2 = finished
+  seq      : Nat := 0                 -- order of parking at drain.deadline (hooks release first-come first-served)
 deriving Repr
 
 inductive CKind
@@ -393,7 +394,7 @@ def drainStep (w : World) (d : Drain) : Option (World × Drain) :=
   match d.phase with
   | 0 =>
     if d.snapshot.all (isDone w) ∨ d.deadline ≤ w.now then
-      if armedAt w "drain.deadline" then some (w, { d with phase := 1 })
+      if armedAt w "drain.deadline" then some ({ w with next := w.next + 1 }, { d with phase := 1, seq := w.next })
       else some (drainFinish w d, { d with phase := 2 })
     else none
   | _ => none
@@ -614,10 +615,14 @@ def release (w : World) (label key0 : String) : World :=
       | _ => w
     | none => w
   else if label = "drain.deadline" then
-    match w.cmds.findSome? fun c => match c.phase with
+    -- every drain parked at the hook for that target, over all commands; the one that parked first goes
+    let cands := w.cmds.flatMap fun c => match c.phase with
       | .draining lbs ds final =>
-        (ds.find? fun d => d.phase == 1 && ((getT w d.tgt).map fun t => showB t.name) == some key).map fun d => (c, lbs, ds, final, d)
-      | _ => none with
+        (ds.filter fun d => d.phase == 1 && ((getT w d.tgt).map fun t => showB t.name) == some key).map fun d => (c, lbs, ds, final, d)
+      | _ => []
+    match cands.foldl (fun (acc : Option (Cmd × List Nat × List Drain × Bool × Drain)) x => match acc with
+        | none => some x
+        | some a => if x.2.2.2.2.seq < a.2.2.2.2.seq then some x else some a) none with
     | some (c, lbs, ds, final, d) =>
       let w1 := drainFinish w d
       setC w1 { c with phase := .draining lbs (ds.map fun x => if x.tgt = d.tgt then { x with phase := 2 } else x) final }
